@@ -85,11 +85,14 @@ CFG = dict(
          "VecDeque with a rotated ring (iterator body returned, index body with caller buffer); integer types are compared with "
          "the model at Z, float types at Coq's binary64; min/max/arg/rank compared exactly, z-score / min-max within 1e-9; "
          "omitted min_periods is compared for every length (the model reproduces the clamp of DESIGN 5.3); tags count rescans, "
-         "rescans with a null newcomer and all-null windows per case",
+         "rescans with a null newcomer and all-null windows per case; audit block: four fixed series (incl. the empty one) x window 0 "
+         "and min_periods above the window (w+1, w+3, clamped window + 1, + 3) x every function x Vec / VecDeque / caller buffer / "
+         "Option<f64>",
     theorem_hint="Props/C03.v: C03_ts_vmin, C03_ts_vmax, C03_ts_vargmin, C03_ts_vargmax, C03_cached_extreme_invariant, "
                  "C03_ts_vrank, C03_ts_vzscore, C03_ts_vminmaxnorm; every ordered carrier: C03_ts_vmin_ordered, "
                  "C03_ts_vmax_ordered, C03_ts_vargmin_ordered, C03_ts_vargmax_ordered, C03_cached_extreme_invariant_ordered, "
-                 "C03_ts_vrank_ordered, C03_order_laws_Z, C03_order_laws_real",
+                 "C03_ts_vrank_ordered, C03_order_laws_Z, C03_order_laws_real; audit: C03_empty_series, C03_window0_rejected, "
+                 "C03_min_periods_above_window_all_null, C03_last_position_meaning, C03_minmaxnorm_both_expired_arm_is_dead_code",
     level_text="Proof (Coq): for EVERY series of length >= 1 over any null dictionary with integer elements, window >= 1, "
                "min_periods, position and both driver bodies the model of cmp.rs returns without panic and ts_vmin / ts_vmax = "
                "least / greatest valid element of the window (null when none), ts_vargmin / ts_vargmax = 1-based offset of the "
@@ -113,7 +116,24 @@ CFG = dict(
                "are ALSO proved for Coq's binary64 float (non-NaN values; +0 == -0 so only the weak-order form holds) from the standard "
                "library's FloatAxioms eqb_spec / ltb_spec / leb_spec, giving ts_vmin/vmax/vargmin/vargmax_f64 for the float instance "
                "the runs execute — kept in Proofs/CmpOrdFloat.v and NOT counted as obligations because the driver's axiom allow-list "
-               "has only the Reals axioms. Nothing is partial. The model is tied to the code by ~40k differential cases per quick run.",
+               "has only the Reals axioms. "
+               "AUDIT (Proofs/Audit03.v, 14 obligations, notes/C03.md 'Audit matrix'): the hypotheses of the main theorems are exactly "
+               "what the code rejects or what is trivial — C03_empty_series (all seven entry points return the empty result on the "
+               "empty series, every window, both bodies, every carrier) and C03_window0_rejected (window 0 on a non-empty series: the "
+               "driver's assertion fails, both bodies); C03_window_clamped_to_length (w >= len behaves as w = len for every "
+               "min_periods); C03_omitted_min_periods (omitted IS Some((min len w)/2): w/2 for len >= w, len/2 for len < w, DESIGN 5.3); "
+               "C03_min_periods_above_window_all_null (min_periods above the clamped window is NOT clamped in cmp.rs: every output "
+               "null; any ordered carrier, + binary64 instance); ties: C03_last_position_meaning(_integer) (the named position holds the "
+               "extreme and NO LATER position does), C03_argmax_spec_meaning, C03_gargmax_spec_meaning, C03_arg_offsets_in_window "
+               "(1 <= offset <= |window|); C03_cmp_family_binary64_option (Option<f64> at binary64 under the no-Some(NaN) premise). "
+               "DEAD CODE DECIDED: the loop body of the both-expired arm of ts_vminmaxnorm's lazy re-search (norm.rs:146-151, the lines "
+               "the coverage report shows are never reached) cannot be reached by any input within the sentinels — the cached indices "
+               "are the LAST positions of the window's extremes (new invariant LastMM), so when both expire together the element that "
+               "left was the only holder of both and the window to re-scan has no valid element "
+               "(C03_minmaxnorm_both_expired_window_is_null); the model with that loop body deleted returns exactly the same outcome for "
+               "every series, window (0 included), min_periods and body (C03_minmaxnorm_both_expired_arm_is_dead_code). "
+               "Nothing is partial. The model is tied to the code by ~47k differential cases per quick run (incl. window 0 and "
+               "min_periods above the window on every entry point, path and element type).",
     level_note="Trusted: Coq kernel (+ stdlib Reals axioms under the rank / z-score theorems only); the hand-written model of "
                "cmp.rs / norm.rs / isnone.rs sort_cmp; the order kernels are proved for every carrier satisfying OrdLaws (instances Z, "
                "option R; and Coq's primitive binary64 float — the binary64 theorems C03_*_binary64 are counted obligations and depend on the standard library's own FloatAxioms.eqb_spec / ltb_spec / leb_spec, the specification of the primitive float comparisons), float arithmetic (rank value, "
@@ -126,5 +146,5 @@ CFG = dict(
              "a counted obligation; Some(NaN) elements of Option<f64> are outside the theorems (valid_not_nan premise)",
              "Reals axioms of the Coq standard library under C03_ts_vrank / C03_ts_vzscore (sig_forall_dec, sig_not_dec, "
              "functional_extensionality_dep)"],
-    assumptions=["inputs finite and of bounded magnitude (DESIGN 5.2), canonical nulls (5.4); series length >= 1, window >= 1"],
+    assumptions=["inputs finite and of bounded magnitude (DESIGN 5.2), canonical nulls (5.4); the main theorems take series length >= 1 and window >= 1 — the complement (empty series, window 0) is described totally by C03_empty_series / C03_window0_rejected"],
 )
